@@ -73,8 +73,24 @@ def run(ctx):
     rep, facts = ctx.report, ctx.facts
     rep.guarded("order", F, lambda: rule_order(facts, rep))
     rep.guarded("impls", "anstyle_wincon::stream::WinconStream", lambda: rule_impls(facts, rep))
-    for r, n in (("order", 9), ("impls", 12)):
+    # "the colours requested": what render_fg / render_bg write for each of the sixteen colours is the SGR code of that colour
+    # (the code tables live in anstyle and are C05's rule; this property depends on exactly the 4-bit part of it)
+    from rules import C05
+    import core
+    codes = core.Filtered(rep, lambda rule, anchor, instance: "AnsiColor::as_" in str(anchor) or "AnsiColor::render_" in str(anchor))
+    rep.guarded("ansi", "anstyle::color::AnsiColor", lambda: C05.rule_ansi(facts, codes))
+    rep.guarded("reset", "anstyle::reset::RESET", lambda: rule_reset(facts, rep))
+    for r, n in (("order", 9), ("impls", 12), ("ansi", 4), ("reset", 1)):
         rep.floor(r, n)
+
+
+def rule_reset(facts, rep):
+    r = facts.body("anstyle", "anstyle::reset::RESET")
+    rep.check(hir.lit_val(ac.single_expr(r["hir"])) == "\x1b[0m", "reset", r["path"], "is-ESC[0m", "the reset written after the data is SGR 0", loc(r))
+    rd = facts.body("anstyle", "<anstyle::reset::Reset as core::fmt::Display>::fmt")
+    e = ac.single_expr(rd["hir"])
+    rep.check(hir.is_call(e, "core::fmt::Formatter::<'a>::write_str") and hir.is_def(e["args"][1], "reset::RESET"), "reset", rd["path"],
+              "writes-RESET", "", loc(rd))
 
 
 def rule_order(facts, rep):
